@@ -245,7 +245,7 @@ func (h *c39BH) publish(ctx context.Context, via *kafscalev1alpha1.KafscaleTopic
 			}
 		}
 	}
-	// observations (never a verdict): topics no resource declares, replica lists
+	// topics no resource declares: leaders are judged, replica lists are observations
 	ids := map[int32]bool{}
 	for _, b := range q.last.Brokers {
 		ids[b.NodeID] = true
@@ -276,7 +276,12 @@ func (h *c39BH) publish(ctx context.Context, via *kafscalev1alpha1.KafscaleTopic
 		}
 		for _, p := range tp.Partitions {
 			if !ids[p.Leader] {
-				r.Count("obs_undeclared_topic_leader_outside_brokers_"+org, 1)
+				// "every partition leader is one of those brokers" holds for every topic of the published metadata,
+				// also for one that the operator merely carries over from the stored snapshot
+				r.Count("undeclared_topic_leader_outside_brokers_"+org, 1)
+				r.Violation("leader_not_a_listed_broker:topic_carried_over_from_the_stored_snapshot:"+org,
+					fmt.Sprintf("published topic %q (no resource declares it; origin %s) partition %d is led by broker %d, which is not one of the %d published brokers", *tp.Topic, org, p.Partition, p.Leader, len(q.last.Brokers)),
+					map[string]any{"history": q.hist})
 				break
 			}
 		}
